@@ -125,7 +125,7 @@ NATURAL_FAULT_TEMPLATES = [
 _PNAMES = ["A", "B", "C", "D", "gamma", "r_star", "a", "b", "c", "x0", "q0", "Z"]
 
 
-def gen_forms(rng, n, prefix="f", var="r", share_prob=0.5, taken=()):
+def gen_forms(rng, n, prefix="f", var="r", share_prob=0.5, taken=(), tables=()):
     """Generate n custom [Potential-Form] entries.  Returns list of dicts:
        {"name","params":[...names],"expr","ranges":[(lo,hi)...]} ; later forms may call earlier
        ones (sub-forms shared with different arguments)."""
@@ -153,6 +153,9 @@ def gen_forms(rng, n, prefix="f", var="r", share_prob=0.5, taken=()):
             forms.append({"name": name, "params": [pn], "expr": expr, "ranges": [(lo0, hi0)], "var": var})
             continue
         npar, templ, ranges = rng.choice(FORM_TEMPLATES)
+        if tables and var == "r" and rng.random() < 0.3:
+            # a custom form that calls a [Table-Form] by name
+            npar, templ, ranges = 1, "{p0}*%s({r}) + %s" % (rng.choice(list(tables)), fmt_num(_u(rng, -1, 1))), [(0.2, 3)]
         pn = rng.sample(_PNAMES, npar)
         d = {"r": var}
         for j, x in enumerate(pn):
@@ -318,19 +321,18 @@ def gen_model(rng, opts=None):
     ctx = {"cutoff": cutoff, "cutoff_rho": cutoff_rho or 1.0, "forms": [], "tables": []}
     sections = []
     form_list = []
-    if rng.random() < o["forms_prob"]:
-        form_list = gen_forms(rng, rng.randint(1, 4), prefix="f", var="r")
-        if kind != "pair" and rng.random() < 0.6:
-            form_list += gen_forms(rng, rng.randint(1, 2), prefix="emb", var="rho", share_prob=0.3,
-                                   taken=[f["name"] for f in form_list])
-        ctx["forms"] = form_list
     table_sections = []
     if rng.random() < o["tables_prob"]:
         for i in range(rng.randint(1, 2)):
             nm = "tab%d" % i
             table_sections.append(gen_table(rng, nm, cutoff))
             ctx["tables"].append(nm)
-
+    if rng.random() < o["forms_prob"]:
+        form_list = gen_forms(rng, rng.randint(1, 4), prefix="f", var="r", tables=ctx["tables"])
+        if kind != "pair" and rng.random() < 0.6:
+            form_list += gen_forms(rng, rng.randint(1, 2), prefix="emb", var="rho", share_prob=0.3,
+                                   taken=[f["name"] for f in form_list])
+        ctx["forms"] = form_list
     # pair entries
     pairs = []
     for i, a in enumerate(species):
